@@ -21,10 +21,10 @@ open CB.Gen CB.Gen.Chains
 syntax "rows_congr " num : tactic
 macro_rules | `(tactic| rows_congr $n) => do
   match n.getNat with
-  | 0 => `(tactic| first | with_reducible rfl | omega | bv_decide)
+  | 0 => `(tactic| first | with_reducible rfl | omega | bv_decide | (simp only [gen_defs] <;> (try simp only [BitVec.mul_comm]) <;> bv_decide) | bv_decide)
   | k + 1 =>
     let m := Lean.Syntax.mkNumLit (toString k)
-    `(tactic| first | with_reducible rfl | omega | bv_decide | (with_reducible congr 1 <;> rows_congr $m) | bv_decide)
+    `(tactic| first | with_reducible rfl | omega | bv_decide | (with_reducible congr 1 <;> rows_congr $m) | (simp only [gen_defs] <;> (try simp only [BitVec.mul_comm]) <;> bv_decide) | bv_decide)
 
 /-- closes a round lemma after the generated loop has been unfolded once: unfold the generated word functions, bring the
     index sums into one order, compare (deciding the words, keeping the recursive call / `List.set` / `List.getD` folded) -/
